@@ -190,24 +190,24 @@ func typeNameIn(t *TType, file string) string {
 // ---- schema generation
 
 type tgenOpts struct {
-	MaxStructs   int
-	MaxFields    int
-	MaxDepth     int
-	BigIDs       bool // allow ids up to 32767
-	ManyFields   bool // occasionally a very wide struct
+	MaxStructs int
+	MaxFields  int
+	MaxDepth   int
+	BigIDs     bool // allow ids up to 32767
+	ManyFields bool // occasionally a very wide struct
 	// NumberedFields > 0: the root struct gets that many extra scalar fields named item_1..item_N (names that no single
 	// character position tells apart: the descriptor's name index is a hash map then, not a trie)
 	NumberedFields int
-	KeyKinds     []byte
-	Aliases      bool
-	Defaults     bool
-	Requiredness bool // mix required/optional (otherwise all default-requiredness)
-	Recursive    bool
-	JSConv       bool
+	KeyKinds       []byte
+	Aliases        bool
+	Defaults       bool
+	Requiredness   bool // mix required/optional (otherwise all default-requiredness)
+	Recursive      bool
+	JSConv         bool
 	// JSConvScalars: api.js_conv only on scalar fields (the JSON->Thrift side of the mapping has no list form)
 	JSConvScalars bool
 	// JSConvNoI16: no api.js_conv on i16 fields (the precondition of the open native finding F43)
-	JSConvNoI16 bool
+	JSConvNoI16   bool
 	NoSet         bool
 	NoBinary      bool
 	StructMapKeys bool
